@@ -442,7 +442,7 @@ func runProperty(eng *Engine, prop, tier string, opts solveOpts, evidence, repla
 	// bounded stand-ins: functions that carry an assumed contract because they are outside the
 	// verifier's reach are exercised on the real code on every run (stated bound, never counted as proof)
 	var standInNotes []string
-	if si, ok := boundedStandIns[prop]; ok && !noReplay {
+	if si, ok := boundedStandIns[prop]; ok {
 		work, _ := os.MkdirTemp("", "govc-standin-")
 		rep := map[string]interface{}{"property": prop, "obligation": "bounded-stand-in/" + si.what, "kind": "bounded"}
 		if eng.runOracle(prop, filepath.Join("/verif/oracle", si.file), nil, rep, work) {
